@@ -632,16 +632,31 @@ def run(ctx: Ctx, rs: RuleSet, tier: str):
     gfn = ctx.p.nested_of(f, inner)
     if gfn is None:
       raise AnalysisError(f'{q}.{inner} not found')
+    gname = gfn.name
+    gfn = ctx.p.through_delegation(gfn)
     ys = [y for y in walk_function(gfn.node) if isinstance(y, ast.Yield) and
           isinstance(y.value, ast.Call) and
           unparse(y.value.func) == '_LeafSetting']
-    ok = bool(ys) and all(unparse(y.value.args[0]) == 'state.current_path'
-                          for y in ys)
-    rec = any(isinstance(n, ast.For) and 'yield_map_child_values(value)' in
-              unparse(n.iter) for n in walk_function(gfn.node))
+    st_p = gfn.params[1] if len(gfn.params) > 1 else 'state'
+    val_p = gfn.params[0] if gfn.params else 'value'
+    ok = bool(ys) and all(
+        unparse(roles.deref(gfn, y.value.args[0])) == f'{st_p}.current_path'
+        for y in ys)
+    rec = any(isinstance(n, ast.For) and
+              f'yield_map_child_values({val_p})' in unparse(n.iter)
+              for n in walk_function(gfn.node))
+    # an un-memoized traversal, started by the generator itself or by its
+    # caller on its behalf
     basic = any('BasicTraversal.begin' in unparse(c.func)
-                for c in ctx.calls(gfn))
-    uses_path = '_path_str(' in unparse(f.node)
+                for c in ctx.calls(gfn)) or any(
+                    'BasicTraversal.begin' in unparse(c.func) and c.args and
+                    unparse(c.args[0]) == gname for c in ctx.calls(f))
+    texts = [unparse(f.node)]
+    for c in ctx.calls(f):
+      h = ctx.p.funcs.get(ctx.p.resolve(c.func, f) or '')
+      if h is not None and h.module is f.module and not h.is_lambda:
+        texts.append(unparse(h.node))
+    uses_path = any('_path_str(' in t for t in texts)
     rs.check(ok and rec and basic and uses_path, rule, q,
              'leaves are yielded with state.current_path; non-leaves recurse '
              'over every child (un-memoized: one line per path); keys are '
